@@ -38,6 +38,11 @@ func (s *Server) DocumentLink(ctx context.Context, params *protocol.DocumentLink
 
 		target := protocol.DocumentURI("file://" + includePath)
 
+		// the link is the path, not the 'include' keyword
+		if inc.PathRange.Start.Line != 0 {
+			inc.Range = inc.PathRange
+		}
+
 		links = append(links, protocol.DocumentLink{
 			Range: protocol.Range{
 				Start: protocol.Position{
